@@ -517,21 +517,34 @@ def _eq(left: object, right: object) -> bool:  # noqa: PLR0911
 
 def _value_eq(left: object, right: object) -> bool:
     """JSON value equality, never equating booleans with numbers at any depth."""
-    # Remember 1 == True and 0 == False in Python
-    if isinstance(left, bool) or isinstance(right, bool):
-        return isinstance(left, bool) and isinstance(right, bool) and left == right
+    # Iterative, so that data nested as deeply as a JSON decoder produces it does
+    # not exhaust the interpreter's stack.
+    stack = [(left, right)]
+    seen = set()
 
-    if isinstance(left, list) and isinstance(right, list):
-        return len(left) == len(right) and all(
-            _value_eq(a, b) for a, b in zip(left, right)  # noqa: B905
-        )
+    while stack:
+        a, b = stack.pop()
 
-    if isinstance(left, dict) and isinstance(right, dict):
-        return left.keys() == right.keys() and all(
-            _value_eq(val, right[key]) for key, val in left.items()
-        )
+        # Remember 1 == True and 0 == False in Python
+        if isinstance(a, bool) or isinstance(b, bool):
+            if not (isinstance(a, bool) and isinstance(b, bool) and a == b):
+                return False
+        elif isinstance(a, list) and isinstance(b, list):
+            if len(a) != len(b):
+                return False
+            if (id(a), id(b)) not in seen:
+                seen.add((id(a), id(b)))
+                stack.extend(zip(a, b))  # noqa: B905
+        elif isinstance(a, dict) and isinstance(b, dict):
+            if a.keys() != b.keys():
+                return False
+            if (id(a), id(b)) not in seen:
+                seen.add((id(a), id(b)))
+                stack.extend((val, b[key]) for key, val in a.items())
+        elif a != b:
+            return False
 
-    return left == right
+    return True
 
 
 def _lt(left: object, right: object) -> bool:
